@@ -20,6 +20,11 @@
 //	         really recycles and can be flushed cheaply): the second answer must equal
 //	         the answer the same request gets on a flushed pool
 //	totality every byte string of <= L symbols of a hostile alphabet as header
+//	near / weights / inner / wide (audit.go): near-miss names (ranges and offers one
+//	         component away from a probe: prefix / extension / other value), the spellings
+//	         of a weight and weights differing in the 2nd / 3rd decimal, the grammar inside
+//	         one range (SP / HTAB around ';', quoted-strings with ',' ';' and quoted-pairs),
+//	         offer / handler lists of 9..12 entries
 //
 // One request carries one header; the handler asks for every offer list in turn
 // (the header bytes are restored before each call), so one evaluation is one call
@@ -142,6 +147,7 @@ type family struct {
 	long    bool   // long-header family (long.go): offer i belongs to range i, own violation handling
 	oname   string // name used in outcome keys (default: name)
 	classes string // long-header family: the key-class alphabet, for signatures
+	literal bool   // signatures keep the type names as written (near-miss families: the relation between the names is the point)
 }
 
 func orderedLists(n, maxLen int) [][]int {
@@ -741,14 +747,103 @@ func elemCost(e elem, firstOfferType string) int {
 	default:
 		c += 30
 	}
+	if sp := stripOWS(e.P); sp != e.P {
+		c += 3 + len(e.P) - len(sp) // optional whitespace around the ';' of a parameter
+	}
+	if strings.Contains(e.P, `\`) {
+		c += 4 // quoted-pair inside a quoted value
+	}
 	switch {
 	case e.Q == "":
 	case strings.HasPrefix(e.Q, ";q=") && strings.Count(e.Q, ";") == 1:
 		c++
 	default:
-		c += 2
+		// 2 for the forms with one deviation from ";q=<v>" (one blank, upper-case Q, an accept-ext), more for more
+		c += 1 + strings.Count(e.Q, " ") + strings.Count(e.Q, "\t") + strings.Count(e.Q, "Q=") + strings.Count(e.Q, ";") - 1
 	}
 	return c
+}
+
+// lessOWS lists spellings of a parameter / weight text with less optional whitespace:
+// none before the ';'s, none after them, runs of blanks shortened (quoted-strings untouched).
+func lessOWS(p string) []string {
+	if stripOWS(p) == p {
+		return nil
+	}
+	var before, after, short strings.Builder
+	inq := false
+	for i := 0; i < len(p); i++ {
+		c := p[i]
+		if inq && c == '\\' && i+1 < len(p) {
+			for _, b := range []*strings.Builder{&before, &after, &short} {
+				b.WriteByte(c)
+				b.WriteByte(p[i+1])
+			}
+			i++
+			continue
+		}
+		if c == '"' {
+			inq = !inq
+		}
+		if (c == ' ' || c == '\t') && !inq {
+			// which side of a ';' is this blank on?
+			j := i
+			for j < len(p) && (p[j] == ' ' || p[j] == '\t') {
+				j++
+			}
+			pre := j < len(p) && p[j] == ';'
+			if !pre {
+				before.WriteByte(c)
+			} else {
+				after.WriteByte(c)
+			}
+			if !(i+1 < len(p) && (p[i+1] == ' ' || p[i+1] == '\t')) {
+				short.WriteByte(c)
+			}
+			continue
+		}
+		before.WriteByte(c)
+		after.WriteByte(c)
+		short.WriteByte(c)
+	}
+	return []string{before.String(), after.String(), short.String()}
+}
+
+// stripOWS removes the optional whitespace (SP / HTAB) outside quoted-strings.
+func stripOWS(p string) string {
+	if !strings.ContainsAny(p, " \t") {
+		return p
+	}
+	var b strings.Builder
+	inq := false
+	for i := 0; i < len(p); i++ {
+		c := p[i]
+		switch {
+		case inq && c == '\\' && i+1 < len(p):
+			b.WriteByte(c)
+			i++
+			c = p[i]
+		case c == '"':
+			inq = !inq
+		case (c == ' ' || c == '\t') && !inq:
+			continue
+		}
+		b.WriteByte(c)
+	}
+	return b.String()
+}
+
+// dropQuotedPairs removes the backslash escapes (and the escaped characters) of the quoted values.
+func dropQuotedPairs(p string) string {
+	var b strings.Builder
+	for i := 0; i < len(p); i++ {
+		if p[i] == '\\' && i+1 < len(p) {
+			i++
+			continue
+		}
+		b.WriteByte(p[i])
+	}
+	return b.String()
 }
 
 var famAcceptsPlain = &family{name: "Accepts", mode: mAccepts, header: "Accept", media: true}
@@ -841,10 +936,40 @@ func (w *worker) report(l *core.Local, f *family, hc hcase, offers []string) {
 				}
 			}
 			e = hc.el[k]
+			try(k, elem{e.T, stripOWS(e.P), e.Q})
+			for _, np := range lessOWS(hc.el[k].P) {
+				try(k, elem{hc.el[k].T, np, hc.el[k].Q})
+			}
+			for _, nq := range lessOWS(hc.el[k].Q) {
+				try(k, elem{hc.el[k].T, hc.el[k].P, nq})
+			}
+			e = hc.el[k]
+			try(k, elem{e.T, e.P, strings.Replace(e.Q, "Q=", "q=", 1)})
+			e = hc.el[k]
 			try(k, elem{e.T, strings.ToLower(e.P), e.Q})
 			e = hc.el[k]
 			if strings.Contains(e.P, `"`) && !strings.ContainsAny(e.P, ", \\") {
 				try(k, elem{e.T, strings.ReplaceAll(e.P, `"`, ""), e.Q})
+			}
+		}
+		// a quoted value with quoted-pairs: the same value without them, in the range and in
+		// every offer that carries it
+		for k := range hc.el {
+			e := hc.el[k]
+			if !strings.Contains(e.P, `\`) {
+				continue
+			}
+			np := dropQuotedPairs(e.P)
+			no := append([]string(nil), offers...)
+			for j := range no {
+				no[j] = strings.ReplaceAll(no[j], e.P, np)
+			}
+			hc.el[k] = elem{e.T, np, e.Q}
+			if still(hc, no) {
+				changed = true
+				offers = no
+			} else {
+				hc.el[k] = e
 			}
 		}
 		// a quoted value that cannot be written as a token: rename the parameter to p=1 in
@@ -978,6 +1103,37 @@ func signature(f *family, kind string, hc hcase, offers []string, pan string) st
 		}
 	}
 	tn, sn := map[string]string{}, map[string]string{}
+	// near-miss families: a name that is a proper prefix / suffix of another name of the
+	// case (or has one) keeps its spelling - that relation is what the case is about
+	keepT, keepS := map[string]bool{}, map[string]bool{}
+	if f.literal && f.media {
+		var ts, ss []string
+		note := func(m string) {
+			if sl := strings.IndexByte(m, '/'); sl >= 0 {
+				ts, ss = append(ts, m[:sl]), append(ss, m[sl+1:])
+			}
+		}
+		for _, e := range hc.el {
+			note(e.T)
+		}
+		for _, o := range offers {
+			if o != "default" {
+				m, _, _ := offerMime(o)
+				note(m)
+			}
+		}
+		mark := func(names []string, keep map[string]bool) {
+			for _, a := range names {
+				for _, b := range names {
+					if a != b && a != "*" && b != "*" && (strings.HasPrefix(a, b) || strings.HasSuffix(a, b)) {
+						keep[a], keep[b] = true, true
+					}
+				}
+			}
+		}
+		mark(ts, keepT)
+		mark(ss, keepS)
+	}
 	ren := func(m string) string {
 		if !f.media {
 			return m
@@ -987,13 +1143,13 @@ func signature(f *family, kind string, hc hcase, offers []string, pan string) st
 			return m
 		}
 		t, s := m[:sl], m[sl+1:]
-		if t != "*" {
+		if t != "*" && !keepT[t] {
 			if _, ok := tn[t]; !ok {
 				tn[t] = fmt.Sprintf("T%d", len(tn)+1)
 			}
 			t = tn[t]
 		}
-		if s != "*" {
+		if s != "*" && !keepS[s] {
 			if _, ok := sn[s]; !ok {
 				sn[s] = fmt.Sprintf("s%d", len(sn)+1)
 			}
@@ -1044,10 +1200,11 @@ func qCategory(q string) string {
 	if i := strings.IndexByte(rest, ';'); i >= 0 {
 		rest, tail = rest[:i], rest[i:]
 	}
+	head := strings.ReplaceAll(q[:eq+1], "\t", `\t`)
 	if v, ok := parseQ(rest); ok && v == 0 {
-		return q[:eq+1] + "0" + tail
+		return head + "0" + tail
 	}
-	return q[:eq+1] + "<v>" + tail
+	return head + "<v>" + tail
 }
 
 // syntaxFeatures lists the non-canonical spellings left in a simplified minimal case
@@ -1074,6 +1231,28 @@ func syntaxFeatures(hc hcase) []string {
 		}
 		if strings.Contains(e.P, `"`) {
 			set["quoted parameter value"] = true
+		}
+		if strings.Contains(e.P, `\`) {
+			set["quoted-pair (backslash escape) in a quoted parameter value"] = true
+		}
+		if stripOWS(e.P) != e.P {
+			// the whitespace around the first ';' that has any, e.g. " ;" or ";\t"
+			for i := 0; i < len(e.P); i++ {
+				if e.P[i] != ';' {
+					continue
+				}
+				a, b := i, i+1
+				for a > 0 && (e.P[a-1] == ' ' || e.P[a-1] == '\t') {
+					a--
+				}
+				for b < len(e.P) && (e.P[b] == ' ' || e.P[b] == '\t') {
+					b++
+				}
+				if b-a > 1 {
+					set[fmt.Sprintf("media parameter introduced by %q", e.P[a:b])] = true
+					break
+				}
+			}
 		}
 		if e.P != strings.ToLower(e.P) {
 			set["upper-case parameter name"] = true
@@ -1143,13 +1322,25 @@ func enumerate(r *core.Run, tag string, f *family, alpha []elem, minN, maxN int,
 	if maxN >= 2 {
 		items += N * N
 	}
-	r.Parallel(items, func(it int, l *core.Local) {
+	// one accumulator per work item, merged in item order: the case kept per violation
+	// signature and the samples do not depend on the scheduling of the goroutines
+	locals := make([]*core.Local, items)
+	defer func() {
+		for _, l := range locals {
+			if l != nil {
+				r.Merge(l.P)
+			}
+		}
+	}()
+	r.Parallel(items, func(it int, _ *core.Local) {
 		if r.Expired() {
 			r.Cap("wall-clock budget exhausted in phase " + tag)
 			return
 		}
 		w := workers.get()
 		defer workers.put(w)
+		l := core.NewLocal()
+		locals[it] = l
 		st := &stats{f: f, tag: tag}
 		defer st.flush(l)
 		if it < N {
@@ -1556,6 +1747,14 @@ func main() {
 	bounds["format"] = fmt.Sprintf("Format: <=%d ranges over the 60-range alphabet x 3 separators x ordered handler lists of <=3 of %v; AutoFormat over the same headers; absent header for every function", fn, formatTypes)
 	phase("format")
 
+	// 2a. the families of the clause-coverage audit (audit.go): near-miss names, weight
+	// spellings, the grammar inside one range, wide offer / handler lists - small products, early
+	nearPhase(r, quick, bounds)
+	weightsPhase(r, quick, bounds)
+	innerPhase(r, quick, bounds)
+	widePhase(r, quick, bounds)
+	phase("audit")
+
 	// 2b. long headers (13 and more ranges, see long.go), cheapest product
 	longPhase(r, quick, 0, bounds)
 	phase("long-0")
@@ -1673,7 +1872,9 @@ func main() {
 				"checked for totality only (no panic, result in offers or empty). An evaluation is non-trivial when the header is present and the admissible answer is not " +
 				"simply 'the first offer' (or, for pool pairs, when the two headers differ). Long headers (13 and more ranges): every assignment of the classes of a small key-class " +
 				"alphabet to a fixed list of distinct types/tokens, offer i acceptable to range i only, x all single offers and ordered offer pairs; judged by the same reference " +
-				"(long_evaluations_decided_by_position_alone counts the pairs whose two ranges tie on quality, specificity and parameter count).",
+				"(long_evaluations_decided_by_position_alone counts the pairs whose two ranges tie on quality, specificity and parameter count). " +
+				"Audit families (bounds near / weights / inner / wide): explicit products around a probe - names one component away from it, every spelling of a weight, " +
+				"optional whitespace and quoted-strings inside one range, lists of 9..12 offers / handlers (judged by the same reference, generalised to lists of any length).",
 			"bounds": bounds,
 		},
 		Assumptions: []string{
